@@ -1444,12 +1444,12 @@ class Worker:
                         near[max(0, c - 2):min(n, c + 2)] = True
                     kinds = set()
                     for i in np.flatnonzero(neq):
-                        if i <= 1 or i >= n - 2:
-                            kinds.add("edge")
-                        elif near[i]:
+                        if near[i]:
                             kinds.add("transition")
                         elif offs[i] != offs[0]:
                             kinds.add("shifted")
+                        elif i <= 1 or i >= n - 2:
+                            kinds.add("edge")
                         else:
                             kinds.add("plain")
                     out["rows_where"] = "+".join(sorted(kinds))
